@@ -62,7 +62,7 @@ def run(R):
     quick = R.tier == "quick"
 
     # ------------------------------------------------------------ readable_count
-    vals = set(range(0, 12000 if quick else 2_100_000))
+    vals = set(range(0, 12000 if quick else 1_000_000))
     w = 120 if quick else 3000
     for j in range(1, 8):
         f = 1024 ** j
